@@ -85,11 +85,15 @@ TEXT["C18"] = ("Theorems for an arbitrary content of fresh bookkeeping memory (j
                "empty; observations of any history do not depend on the junk; afterwards the history theorems apply. PARTIAL where it rests "
                "on C01's memmove-path restriction. Correspondence: histories starting from default-constructed and zero-capacity vectors "
                "with allocator-controlled junk.")
-TEXT["C07"] = ("Theorems on the allocator ledger model: every allocation is recorded with allocator, size and kind; release returns exactly "
-               "what was allocated to the allocator it came from; reallocation and both pointer assignments keep the ledger well-formed; "
-               "destruction returns the data block. The no-leak statement is FALSE for the offset table of VaryingSize vectors: "
-               "kernel-checked counter-witness, partial theorem for the data block (known finding). Correspondence: ledger allocator "
-               "that checks allocator identity, size and alignment on every deallocate, over the assignment matrix and element operations.")
+TEXT["C07"] = ("Ownership theorem on whole histories (OwnProofs): starting from nothing, after any history of constructions, in-place "
+               "operations, reserves, copy/move constructions, copy/move assignments, swaps and destructions over any number of vectors, "
+               "whichever allocations throw, the ledger has recorded no double free, no free with a wrong size and no free through an "
+               "unequal allocator, every vector owns a live block of exactly its recorded size from an allocator equal to its own, no block "
+               "has two owners, every live data block has an owner, and once all vectors are destroyed no data block is live "
+               "(invariant WOwn preserved by every operation). Pointer-level theorems for allocation, release, reallocation and both "
+               "assignments. The statement is FALSE for the offset table of VaryingSize vectors: kernel-checked counter-witness (known "
+               "finding). Correspondence: ledger allocator that checks allocator identity, size and alignment on every deallocate and "
+               "guard zones of every live block after every operation, over the assignment matrix and element operations.")
 TEXT["C08"] = ("Theorems: which allocator each vector holds after copy construction (select_on_container_copy_construction), copy/move "
                "assignment and swap under every propagation trait combination, and that move assignment between unequal non-propagating "
                "allocators allocates from the target's allocator. Correspondence: 10 trait combinations x operations, allocator ids observed.")
